@@ -96,6 +96,12 @@ NUL_SPECS = [
 ]
 
 
+def nul_term_shapes():
+    """NUL-terminated records whose content contains \\n (the buffer must cut at
+    the CONFIGURED terminator, not at \\n)"""
+    return [from_bytes("z_nl_in_record", b"a\nx\0b\0", T_NUL)]
+
+
 def nul_shapes():
     out = []
     for n, hay in NUL_SPECS:
@@ -190,6 +196,9 @@ def all_shapes(max_lines=5, max_bytes=9):
 
 
 def by_name(name):
+    for a in nul_term_shapes():
+        if a.name == name:
+            return a
     for a, b in nul_shapes():
         if a.name == name:
             return a
